@@ -77,6 +77,44 @@ theorem split_no_overlap (N k i : Nat) :
   simp only [select_mem, Nat.mod_one, and_true]
   omega
 
+/-! ### files with lines that do not parse: they keep their index and are dropped after the rank stride -/
+
+theorem selectValid_mem (N skip : Nat) (limit : Option Nat) (ff r W : Nat) (invalid : List Nat) (i : Nat) :
+    i ∈ selectValid N skip limit ff r W invalid ↔ i ∈ selectIdx N skip limit ff r W ∧ i ∉ invalid := by
+  simp [selectValid, List.mem_filter]
+
+/-- the ranks still deliver disjoint sets … -/
+theorem ranks_disjoint_valid (N skip : Nat) (limit : Option Nat) (ff W r r' i : Nat) (invalid : List Nat)
+    (hr : r < W) (hr' : r' < W) (hne : r ≠ r') (h : i ∈ selectValid N skip limit ff r W invalid) :
+    i ∉ selectValid N skip limit ff r' W invalid := by
+  rw [selectValid_mem] at h ⊢
+  exact fun h' => ranks_disjoint N skip limit ff W r r' i hr hr' hne h.1 h'.1
+
+/-- … whose union is exactly what the single process delivers: wherever the unparseable lines sit, no valid line
+is lost or delivered twice -/
+theorem ranks_union_valid (N skip : Nat) (limit : Option Nat) (ff W i : Nat) (invalid : List Nat) (hW : 0 < W) :
+    (∃ r, r < W ∧ i ∈ selectValid N skip limit ff r W invalid) ↔ i ∈ selectValid N skip limit ff 0 1 invalid := by
+  simp only [selectValid_mem]
+  constructor
+  · rintro ⟨r, hr, h, hi⟩
+    exact ⟨(ranks_union N skip limit ff W i hW).mp ⟨r, hr, h⟩, hi⟩
+  · rintro ⟨h, hi⟩
+    obtain ⟨r, hr, h'⟩ := (ranks_union N skip limit ff W i hW).mpr h
+    exact ⟨r, hr, h', hi⟩
+
+/-- fast-forward counts LINES: after `fast_forward k` the single process delivers the valid lines among the global
+stream after its first `k` lines.  (The property speaks of the first `k` delivered ITEMS: the two differ exactly
+when an unparseable line lies among the skipped ones, known finding F17.) -/
+theorem ff_resume_valid (N skip : Nat) (limit : Option Nat) (k : Nat) (invalid : List Nat) :
+    selectValid N skip limit k 0 1 invalid =
+      ((selectIdx N skip limit 0 0 1).drop k).filter (fun i => !invalid.contains i) := by
+  unfold selectValid
+  rw [ff_resume]
+
+/-- F17, concretely: 9 lines, skip 4, line 5 unparseable: the uninterrupted stream delivers 4, 6, 7, 8; a restart
+after two delivered items (`fast_forward 2`) delivers 6 again -/
+example : selectValid 9 4 none 0 0 1 [5] = [4, 6, 7, 8] ∧ selectValid 9 4 none 2 0 1 [5] = [6, 7, 8] := by decide
+
 /-- min_items is the length of the single-process stream without fast-forward -/
 theorem minItems_eq (N skip : Nat) (limit : Option Nat) :
     minItems N skip limit = (selectIdx N skip limit 0 0 1).length := by
